@@ -385,3 +385,78 @@ def check_orientation(chk, fi: FuncInfo, loop: ast.For, sites: c03e.Sites, fold,
         if (a, b) != want:
             bad[f"residue_i {'<' if lf else '>'} residue_j"] = [a, b]
     chk.expect(not bad, rule, fi.site(loop), "every stacking is recorded with the lower residue first (both residue orders evaluated)", f"a stacking is recorded with the higher residue first when {sorted(bad)[0] if bad else ''}: `{bad}` - the list is sorted afterwards but a pair is never re-oriented, so the same contact is (a, b) or (b, a) depending on the order of the residues in the file", K(fi, "stack-orientation"), found=bad)
+
+
+def centroid_by_value(chk, fi: FuncInfo, points: str) -> bool:
+    """The centroid registered for a residue, decided on values: the statements before `KDTree(<points>)` are evaluated on stand-in
+    residues (every base letter; all ring atoms present / one missing / none present) and the registered point is compared with the
+    mean of the ring atoms (pinned BASE_ATOMS) that are present.  Returns False when the code is not evaluable (nothing reported)."""
+    from checks import c03v
+
+    repo = chk.repo
+    t = c03v.tables()
+    cases = []
+    for L in c03v.LETTERS:
+        ring = t["BASE_ATOMS"].get(L, [])
+        cases.append((L, []))
+        if ring:
+            cases.append((L, [ring[len(ring) // 2]]))
+            cases.append((L, list(ring)))
+    results = []
+    try:
+        for L, missing in cases:
+            res = c03v.ResStub(repo, L, model=1, tag=1, missing=missing)
+            env = c03v.run_prefix(repo, fi, points, [res], None)
+            results.append((L, missing, res, list(env[points]), c03v.site_dicts(env, points) if env[points] else {}))
+    except c03v.NotEvaluable as ex:
+        if "ZeroDivisionError" in str(ex):
+            chk.violation("centroid-guard", fi.where, f"registering a residue without any ring atom present fails ({str(ex)[:80]}): the centroid is computed without testing that at least one base atom is present", K(fi, "centroid-guard"))
+            return True
+        return False
+    site = fi.where
+    wrong, unguarded, mapping = {}, {}, {}
+    for L, missing, res, pts, dicts in results:
+        ring = [a for a in res.atoms if a.name in t["BASE_ATOMS"].get(L, [])]
+        label = f"{L}" + (f" without {missing[0]}" if len(missing) == 1 else (" without ring atoms" if missing else ""))
+        if not ring:
+            if pts:
+                unguarded[label] = pts[:1]
+            continue
+        want = tuple(sum(getattr(a, ax) for a in ring) / len(ring) for ax in "xyz")
+        if len(pts) != 1 or not isinstance(pts[0], (tuple, list)) or len(pts[0]) != 3 or any(abs(float(g) - w) > 1e-9 for g, w in zip(pts[0], want)):
+            # which atoms give the registered point?  (tables of tertiary.py that list ring atoms)
+            why = ""
+            if len(pts) == 1 and isinstance(pts[0], (tuple, list)) and len(pts[0]) == 3:
+                for tab, names in (("Residue3D.nucleobase_heavy_atoms", _class_table(repo, "nucleobase_heavy_atoms").get(L, [])), ("all atoms of the residue", [a.name for a in res.atoms])):
+                    sel = [a for a in res.atoms if a.name in names]
+                    for den in (len(sel), len([n for n in names]) or 1, len(t["BASE_ATOMS"].get(L, [])) or 1):
+                        if sel and all(abs(float(g) - sum(getattr(a, ax) for a in sel) / den) < 1e-9 for g, ax in zip(pts[0], "xyz")):
+                            why = f" (it is the sum over the atoms of {tab} that are present, divided by {den})"
+                            break
+                    if why:
+                        break
+                if not why:
+                    for den in (len(t["BASE_ATOMS"].get(L, [])),):
+                        if den and all(abs(float(g) - sum(getattr(a, ax) for a in ring) / den) < 1e-9 for g, ax in zip(pts[0], "xyz")):
+                            why = f" (the sum over the ring atoms present is divided by {den}, the number of ring atoms expected)"
+            wrong[label] = f"registered {[round(float(x), 4) for x in pts[0]] if pts and isinstance(pts[0], (tuple, list)) else pts}, mean of the ring atoms present {[round(w, 4) for w in want]}{why}"
+        for d, content in dicts.items():
+            for k, v in content.items():
+                if v is not res and not (isinstance(v, tuple) and res in v):
+                    mapping[label] = f"`{d}` maps the centroid to {v!r}"
+    chk.expect(not wrong, "centroid-mean", site, f"centroid = per-axis mean of the ring atoms (BASE_ATOMS) that are present ({len(results)} stand-in residues evaluated: every base letter, complete / one ring atom missing)", f"the registered centroid is not the mean of the ring atoms that are present: {dict(list(wrong.items())[:3])}", K(fi, "centroid"), found=wrong)
+    chk.ok("centroid-axes", site, "components are the means of x, y, z in this order (compared by value)") if not wrong else None
+    chk.ok("centroid-atoms", site, "centroid atoms = the ring atoms of the residue's base (by value, for A, G, C, U, T and an unknown letter)") if not wrong else None
+    chk.expect(not unguarded, "centroid-guard", site, "a centroid exists only for residues with at least one base atom present (a residue without ring atoms registers nothing)", f"a residue without ring atoms is registered: {unguarded}", K(fi, "centroid-guard"), found=unguarded)
+    chk.expect(not mapping, "centroid-register", site, "the centroid is mapped back to its residue under the same key", f"the dictionary keyed by the centroid does not hold the residue: {mapping}", K(fi, "centroid-register"), found=mapping)
+    return True
+
+
+def _class_table(repo, attr: str) -> Dict[str, List[str]]:
+    from sa.consteval import Folder
+
+    try:
+        v = Folder(repo, "tertiary").fold(repo.class_attr_expr("tertiary", "Residue3D", attr))
+        return {k: sorted(x) for k, x in v.items()} if isinstance(v, dict) else {}
+    except Exception:
+        return {}
